@@ -1,0 +1,20 @@
+//go:build verif
+
+package sftp
+
+import "sync/atomic"
+
+// Re-exports for the client-connection checks (C03/C04/C20) of the verification
+// harness in /verif. Compiled only with `-tags verif`; adds no behaviour to the
+// package and edits no existing code.
+
+// VerifSetNextID sets the Client's request-id counter, so that a session can be
+// started close to the uint32 wrap-around (the next request uses v+1).
+func VerifSetNextID(c *Client, v uint32) { atomic.StoreUint32(&c.nextid, v) }
+
+// VerifInflight returns the number of callers currently registered for a reply.
+func VerifInflight(c *Client) int {
+	c.clientConn.Lock()
+	defer c.clientConn.Unlock()
+	return len(c.clientConn.inflight)
+}
